@@ -69,6 +69,7 @@ func (d *c3DB) SetByKey(key []byte, value []byte) error {
 func (d *c3DB) preset(src, dst uint8, nonce uint64, letter string) {
 	st := c3Status(letter)
 	if st == store.MissingProp {
+		delete(d.m, fmt.Sprintf(store.KEY, src, dst, nonce))
 		return
 	}
 	d.m[fmt.Sprintf(store.KEY, src, dst, nonce)] = string(st)
